@@ -10,7 +10,11 @@ def main():
     pairs = [a.split('=') for a in sys.argv[4:]]
     script = requires + '\nSet Printing Width 110.\nSet Printing Depth 1000.\n'
     for name, lem in pairs:
-        script += f'Check @{lem}.\n'
+        if name.startswith('!'):
+            script += f'Set Printing Implicit.\nCheck @{lem}.\nUnset Printing Implicit.\n'
+        else:
+            script += f'Check @{lem}.\n'
+    pairs = [(n.lstrip('!'), l) for n, l in pairs]
     p = subprocess.run(['coqtop', '-Q', '.', 'VQ', '-quiet'], input=script, cwd=COQ, capture_output=True, text=True)
     out = p.stdout
     blocks = re.split(r'\n(?=@?[\w.]+\n?\s*: )', '\n' + out)
